@@ -221,6 +221,15 @@ def cursor_rule(ctx, c):
                     if rv["k"] == "bin" and rv["op"].startswith("Sub"):
                         subs += 1
             ctx.inst(R, key, sample={"predicate": aty[:90], "captures": ups, "subtractions": subs})
-            if cb is None or not any("cursor" in u for u in ups) or subs == 0:
-                ctx.violation(R, "hydro_deploy_integration|%s|compaction-without-cursor-adjustment" % fn_key(c, b), "the source list is compacted with a predicate that does not capture and decrement the "
+            # alternative correct shape: the adjustment is computed outside the predicate and subtracted from the cursor field in the same function
+            outer_adjust = False
+            sub_locals = set(lhs_ for _b2, _i2, lhs_, rv_ in b.assignments() if isinstance(lhs_, int) and rv_["k"] == "bin" and rv_["op"].startswith("Sub"))
+            for _b2, _i2, lhs_, rv_ in b.assignments():
+                if not isinstance(lhs_, int) and any("cursor" in x for x in mir.pl_fields(lhs_)):
+                    if rv_["k"] == "bin" and rv_["op"].startswith("Sub"):
+                        outer_adjust = True
+                    if rv_["k"] == "use" and op_place(rv_["ops"][0]) is not None and pl_local(op_place(rv_["ops"][0])) in sub_locals:
+                        outer_adjust = True
+            if (cb is None or not any("cursor" in u for u in ups) or subs == 0) and not outer_adjust:
+                ctx.violation(R, "hydro_deploy_integration|%s|compaction-without-cursor-adjustment" % fn_key(c, b), "the source list is compacted, but neither the retain predicate nor the function itself subtracts from the "
                               "poll cursor: after an ended source is removed the cursor points one slot too far and a live source is skipped in this round (its siblings adjust it)", b.loc(bb))
